@@ -95,7 +95,15 @@ func mutateInsert(current, value interface{}) (interface{}, interface{}) {
 	}
 	if vc.Kind() == reflect.Map && vv.Kind() == reflect.Map {
 		if vc.IsNil() && vv.Len() > 0 {
-			return value, value
+			// the new value and the difference must not share memory: a
+			// later mutation of the same operation changes the new value
+			// in place
+			fresh := reflect.MakeMapWithSize(vc.Type(), vv.Len())
+			iter := vv.MapRange()
+			for iter.Next() {
+				fresh.SetMapIndex(iter.Key(), iter.Value())
+			}
+			return fresh.Interface(), value
 		}
 		diff := reflect.MakeMap(vc.Type())
 		iter := vv.MapRange()
